@@ -8,6 +8,20 @@ pub const OUR_IP: [u8; 4] = [10, 0, 0, 1];
 pub const PEER_IP: [u8; 4] = [10, 0, 0, 2];
 pub const OUR_MAC: [u8; 6] = [0x02, 0, 0, 0, 0, 0x01];
 pub const PEER_MAC: [u8; 6] = [0x02, 0, 0, 0, 0, 0x02];
+/// a second on-link neighbour "B" (also pre-resolved on Ethernet)
+pub const PEER_B_IP: [u8; 4] = [10, 0, 0, 3];
+pub const PEER_B_MAC: [u8; 6] = [0x02, 0, 0, 0, 0, 0x03];
+
+/// the hardware address of the neighbour that owns an IP destination in our world
+pub fn mac_of(ip: [u8; 4]) -> Option<[u8; 6]> {
+    if ip == PEER_IP {
+        Some(PEER_MAC)
+    } else if ip == PEER_B_IP {
+        Some(PEER_B_MAC)
+    } else {
+        None
+    }
+}
 
 pub const PROTO_ICMP: u8 = 1;
 pub const PROTO_UDP: u8 = 17;
@@ -143,23 +157,30 @@ pub fn eth_wrap(dst: [u8; 6], src: [u8; 6], ethertype: u16, payload: &[u8]) -> V
     f
 }
 
-/// unsolicited ARP reply peer -> us (fills smoltcp's neighbor cache)
-pub fn arp_reply() -> Vec<u8> {
+/// unsolicited ARP reply neighbour -> us (fills smoltcp's neighbor cache)
+pub fn arp_reply_from(mac: [u8; 6], ip: [u8; 4]) -> Vec<u8> {
     let mut a = vec![0, 1, 8, 0, 6, 4, 0, 2];
-    a.extend_from_slice(&PEER_MAC);
-    a.extend_from_slice(&PEER_IP);
+    a.extend_from_slice(&mac);
+    a.extend_from_slice(&ip);
     a.extend_from_slice(&OUR_MAC);
     a.extend_from_slice(&OUR_IP);
-    eth_wrap(OUR_MAC, PEER_MAC, 0x0806, &a)
+    eth_wrap(OUR_MAC, mac, 0x0806, &a)
+}
+pub fn arp_reply() -> Vec<u8> {
+    arp_reply_from(PEER_MAC, PEER_IP)
 }
 
-/// inbound frame for the given medium
-pub fn inbound(ethernet: bool, ip_packet: Vec<u8>) -> Vec<u8> {
+/// inbound frame for the given medium, sent by the neighbour with hardware address `src_mac`
+pub fn inbound_from(ethernet: bool, src_mac: [u8; 6], ip_packet: Vec<u8>) -> Vec<u8> {
     if ethernet {
-        eth_wrap(OUR_MAC, PEER_MAC, 0x0800, &ip_packet)
+        eth_wrap(OUR_MAC, src_mac, 0x0800, &ip_packet)
     } else {
         ip_packet
     }
+}
+/// inbound frame for the given medium (from the peer)
+pub fn inbound(ethernet: bool, ip_packet: Vec<u8>) -> Vec<u8> {
+    inbound_from(ethernet, PEER_MAC, ip_packet)
 }
 
 pub type Key = ([u8; 4], [u8; 4], u8, u16);
@@ -175,6 +196,8 @@ pub struct Frag {
     pub hdr_cksum_ok: bool,
     /// length of the frame as handed to the device (incl. Ethernet header)
     pub frame_len: usize,
+    /// link-layer destination (Medium::Ethernet only)
+    pub eth_dst: Option<[u8; 6]>,
 }
 
 /// Parse a frame emitted by the stack. Err = not a well formed IPv4 frame for this medium.
@@ -186,9 +209,6 @@ pub fn parse_tx_frame(ethernet: bool, frame: &[u8]) -> Result<Frag, String> {
         let et = ((frame[12] as u16) << 8) | frame[13] as u16;
         if et != 0x0800 {
             return Err(format!("ethertype {:#06x} (expected IPv4; neighbor was pre-resolved)", et));
-        }
-        if frame[0..6] != PEER_MAC {
-            return Err(format!("Ethernet destination {:02x?} is not the resolved peer", &frame[0..6]));
         }
         if frame[6..12] != OUR_MAC {
             return Err(format!("Ethernet source {:02x?} is not our address", &frame[6..12]));
@@ -213,6 +233,7 @@ pub fn parse_tx_frame(ethernet: bool, frame: &[u8]) -> Result<Frag, String> {
         payload: ip[i.payload_off..i.payload_off + i.payload_len].to_vec(),
         hdr_cksum_ok: i.header_checksum_ok,
         frame_len: frame.len(),
+        eth_dst: if ethernet { Some([frame[0], frame[1], frame[2], frame[3], frame[4], frame[5]]) } else { None },
     })
 }
 
@@ -267,5 +288,8 @@ pub fn describe(f: &Frag) -> String {
         "IPv4 {}.{}.{}.{}>{}.{}.{}.{} proto={} id={:#06x} off={} len={} MF={} DF={} hdrck={} frame={}B",
         f.key.0[0], f.key.0[1], f.key.0[2], f.key.0[3], f.key.1[0], f.key.1[1], f.key.1[2], f.key.1[3],
         f.key.2, f.key.3, f.off, f.payload.len(), f.mf as u8, f.df as u8, if f.hdr_cksum_ok { "ok" } else { "BAD" }, f.frame_len
-    )
+    ) + &match f.eth_dst {
+        Some(m) => format!(" ethdst={:02x}:{:02x}:{:02x}:{:02x}:{:02x}:{:02x}", m[0], m[1], m[2], m[3], m[4], m[5]),
+        None => String::new(),
+    }
 }
